@@ -197,6 +197,12 @@ Ltac pow_unify :=
           lazymatch X with Y => fail | _ => idtac end;
           replace (im X) with (im Y) by (f_equal; first [ ring | field; nzs ])
       end
+  | |- context [cond_ ?b ?X ?Y] =>
+      match goal with
+      | |- context [cond_ b ?X' ?Y'] =>
+          lazymatch constr:((X, Y)) with (X', Y') => fail | _ => idtac end;
+          replace (cond_ b X Y) with (cond_ b X' Y') by (f_equal; first [ ring | rewrite ?(Fdiv_def Fth); ring | field; nzs ])
+      end
   | |- context [cmp ?o ?X ?Y] =>
       match goal with
       | |- context [cmp o ?X' ?Y'] =>
